@@ -7,6 +7,7 @@ PROPS = {"C12": "model_checking"}
 
 PROP_INVS = {
     "C12": ["C12_Routing", "C12_Version", "C12_FollowLeader", "C12_FollowLeaderRealTime", "C12_RefreshWithinTTL", "C12_CacheFilter",
+            "C12_HealthyCallSucceeds",
             "C06t_OwnResponse"],
     "C06": ["C06t_OwnResponse", "C06t_NoReuseAfterFailure", "C06t_ReleaseOnlyAfterComplete", "C17t_NoPanicNoHang"],
     "C17": ["C17t_CutIsError", "C17t_NextCallSucceeds", "C17t_NoPanicNoHang", "C06t_NoReuseAfterFailure", "C06t_OwnResponse"],
@@ -91,7 +92,8 @@ def mkop(ops, kind, rng, **kw):
         r = rng.random()
         if r < 0.15:
             return ops.op("metadata", allTopics=True, **kw)
-        names = rng.sample(["t1", "t2", "nosuch", "t3", "zz"], rng.randint(1, 3))
+        # (names that do not exist sort before, between and after the existing ones)
+        names = rng.sample(["t1", "t2", "nosuch", "t3", "zz", "aaa", "t1x"], rng.randint(1, 3))
         return ops.op("metadata", names=names, **kw)
     if kind in ("produce", "fetch", "offsetcommit", "offsetfetch", "addpartitionstotxn"):
         return ops.op(kind, t=t, p=p, k=rng.randrange(6), **kw)
@@ -211,6 +213,32 @@ def c12_scripts(seed, tier):
         st += [{"slack": True}] if slack else [{"waitRefresh": True}]
         st += steps_of([mkop(ops, k, rng, **kw) for k, kw in lp])
         sc.update({"id": "follow-held-%d%s" % (nth, "-rt" if slack else ""), "kind": "c12", "steps": st})
+        out.append(sc)
+
+    # 3c. the bootstrap broker is unreachable at first use and comes up later: once the metadata has been loaded, Metadata
+    # calls are answered from the cache and routed calls work
+    for fi, lay in enumerate(layouts[:2]):
+        ops = Ops()
+        lay2 = dict(lay, boot=(1,))
+        sc = cluster(ttl=100, **lay2)
+        sc["downAtStart"] = [1]
+        st = [{"op": ops.op("metadata", names=["t1"])}, {"op": ops.op("produce", t="t1", p=0)},
+              {"move": {"kind": "up", "b": 1}}, {"waitRefresh": True},
+              {"op": ops.op("metadata", names=["t2", "aaa", "t1"], mustSucceed=True)}, {"op": ops.op("metadata", allTopics=True, mustSucceed=True)},
+              {"op": ops.op("produce", t="t1", p=0, mustSucceed=True)}, {"op": ops.op("fetch", t="t2", p=1, k=2, mustSucceed=True)},
+              {"op": ops.op("metadata", names=["t1x"], mustSucceed=True)}]
+        sc.update({"id": "firstdown-%d" % fi, "kind": "c12", "steps": st})
+        out.append(sc)
+
+    # 3d. SASL: the requests of the connection set-up are written at negotiated versions too
+    for si, hs in enumerate(([1, 1], [0, 1], [0, 0])):
+        ops = Ops()
+        sc = cluster(ttl=150, **layouts[0])
+        sc["sasl"] = {"user": "alice", "pass": "secret"}
+        sc["vtab"] = {"0": {"SaslHandshake": hs}}
+        st = steps_of([mkop(ops, k, rng, **kw) for k, kw in [("produce", dict(t="t1", p=0)), ("fetch", dict(t="t2", p=0)), ("metadata", {}), ("offsetcommit", {}),
+                                                              ("listoffsets1", dict(t="t1", p=1))]])
+        sc.update({"id": "sasl-%d" % si, "kind": "c12", "steps": st})
         out.append(sc)
 
     # 4. metadata from the cache against what the brokers answered, across topic creation and deletion
@@ -354,7 +382,7 @@ def bad_of(out, inv):
 
 
 FIELD_OF = {"C12_Routing": "route", "C12_Version": "version", "C12_FollowLeader": "follow", "C12_FollowLeaderRealTime": "realtime",
-            "C12_RefreshWithinTTL": "refresh", "C12_CacheFilter": "filter", "C06t_OwnResponse": "own", "C06t_NoReuseAfterFailure": "reuse",
+            "C12_RefreshWithinTTL": "refresh", "C12_CacheFilter": "filter", "C12_HealthyCallSucceeds": "nexterr", "C06t_OwnResponse": "own", "C06t_NoReuseAfterFailure": "reuse",
             "C06t_ReleaseOnlyAfterComplete": "pending", "C17t_CutIsError": "cut", "C17t_NextCallSucceeds": "nexterr",
             "C17t_NoPanicNoHang": "hang", "C09t_CancelPrompt": "late", "C09t_ContextError": "ctxerr", "C09t_ClosedPoolConnsClose": "leak"}
 
